@@ -115,6 +115,7 @@ func unsupported(f string, a ...interface{}) Unsupported {
 type comp struct {
 	Suffix string
 	Sort   string // Int | Bool
+	Ref    bool   // the component is an object/region id (never exceeds the allocation counter)
 }
 
 func isOpaqueNamed(t types.Type) bool {
@@ -175,21 +176,21 @@ func typeKey(t types.Type) string {
 
 func flatten(t types.Type) []comp {
 	if isOpaqueNamed(t) {
-		return []comp{{"", "Int"}}
+		return []comp{{"", "Int", false}}
 	}
 	switch u := t.Underlying().(type) {
 	case *types.Basic:
 		if u.Info()&types.IsBoolean != 0 {
-			return []comp{{"", "Bool"}}
+			return []comp{{"", "Bool", false}}
 		}
-		return []comp{{"", "Int"}}
+		return []comp{{"", "Int", false}}
 	case *types.Slice:
-		return []comp{{"_reg", "Int"}, {"_off", "Int"}, {"_len", "Int"}, {"_cap", "Int"}}
+		return []comp{{"_reg", "Int", true}, {"_off", "Int", false}, {"_len", "Int", false}, {"_cap", "Int", false}}
 	case *types.Struct:
 		var out []comp
 		for i := 0; i < u.NumFields(); i++ {
 			for _, c := range flatten(u.Field(i).Type()) {
-				out = append(out, comp{"_" + sanitize(u.Field(i).Name()) + c.Suffix, c.Sort})
+				out = append(out, comp{"_" + sanitize(u.Field(i).Name()) + c.Suffix, c.Sort, c.Ref})
 			}
 		}
 		return out
@@ -197,12 +198,16 @@ func flatten(t types.Type) []comp {
 		var out []comp
 		for i := 0; i < u.Len(); i++ {
 			for _, c := range flatten(u.At(i).Type()) {
-				out = append(out, comp{fmt.Sprintf("_%d%s", i, c.Suffix), c.Sort})
+				out = append(out, comp{fmt.Sprintf("_%d%s", i, c.Suffix), c.Sort, c.Ref})
 			}
 		}
 		return out
 	}
-	return []comp{{"", "Int"}}
+	switch t.Underlying().(type) {
+	case *types.Pointer, *types.Map, *types.Chan, *types.Array:
+		return []comp{{"", "Int", true}}
+	}
+	return []comp{{"", "Int", false}}
 }
 
 // rebuild constructs a Val of type t from scalar components (inverse of comps()).
